@@ -40,6 +40,7 @@ Setup == <<
   EAsg("two", ELam(<<Req("x"), Req("i"), Req("j")>>, X)),
   \* callbacks that build a list of their own while the built-in is still walking its argument
   EAsg("allocp", ELam(<<Req("x")>>, EBin("lt", ECall(EId("sum"), <<EList(<<X, N(0)>>)>>), N(2)))),
+  EAsg("cnt", ELam(<<Req("a"), Req("x")>>, Plus(EBin("coalesce", EId("a"), N(0)), N(1)))),      \* works from a null accumulator
   EAsg("accl", ELam(<<Req("a"), Req("x")>>, Plus(EId("a"), ECall(EId("len"), <<EList(<<X, EId("a")>>)>>))))
 >>
 Mappers    == {"inc", "withidx", "optidx", "restall", "restafter", "closure", "fact", "sum", "max", "len", "two", "failing", "g"}
@@ -60,6 +61,7 @@ Init == \/ c \in {[form |-> "via", l |-> l, f |-> f, site |-> s] : l \in Lists, 
         \/ c \in {[form |-> "every", l |-> l, f |-> f, site |-> "direct"] : l \in Lists, f \in Predicates}
         \/ c \in {[form |-> "some", l |-> l, f |-> f, site |-> "direct"] : l \in Lists, f \in Predicates}
         \/ c \in {[form |-> "reduce", l |-> l, f |-> f, site |-> "direct"] : l \in Lists, f \in Reducers}
+        \/ c \in {[form |-> "reducen", l |-> l, f |-> f, site |-> "direct"] : l \in Lists, f \in {"cnt", "restall", "acc2", "acc3"}}   \* initial value null
 Next == UNCHANGED c
 Spec == Init /\ [][Next]_c
 
@@ -77,6 +79,7 @@ BodyA(form, le, fe) ==
     [] form = "every"  -> ECall(EId("every"), <<le, fe>>)
     [] form = "some"   -> ECall(EId("some"), <<le, fe>>)
     [] form = "reduce" -> ECall(EId("reduce"), <<le, fe, N(1)>>)
+    [] form = "reducen" -> ECall(EId("reduce"), <<le, fe, ELit(Null)>>)
 BodyB(form, le, fe) ==
   CASE form = "via"    -> ECall(EId("map"), <<le, fe>>)
     [] form = "where"  -> ECall(EId("filter"), <<le, fe>>)
@@ -108,7 +111,8 @@ EverySome ==
 RECURSIVE LeftFold(_, _, _)
 LeftFold(j, acc, three) == IF j > Len(xs) \/ IsE(acc) THEN acc
                            ELSE LeftFold(j + 1, ApplyFn(Fv, IF three THEN <<acc, Fin(xs[j].v), Fin(j - 1)>> ELSE <<acc, Fin(xs[j].v)>>, Env0, 0), three)
-ReduceIsLeftFold == (c.form = "reduce" /\ (IsFn(Fv) \/ IsBi(Fv))) => ProjV(Ev(FormA)) = ProjV(LeftFold(1, Fin(1), FnCanAccept(Fv, 3)))
+ReduceIsLeftFold == (c.form \in {"reduce", "reducen"} /\ (IsFn(Fv) \/ IsBi(Fv))) =>
+                       ProjV(Ev(FormA)) = ProjV(LeftFold(1, IF c.form = "reduce" THEN Fin(1) ELSE Null, FnCanAccept(Fv, 3)))
 
 ASSUME PrintT(<<"SETUP", ToJson(Setup)>>)
 \* the site does not matter: a function held in a captured parameter or local behaves as the named function does
